@@ -45,6 +45,22 @@ pub fn eval(pp: &mut ParsedPacket, base: &[u8], setter: Setter, word: u16, arg: 
         p[3] = word as u8;
     }
     let before: Vec<u8> = pp.packet().to_vec();
+    // a panic inside an extern "C" function aborts the process: the method behind a table entry is
+    // tried first (under catch), and the table entry is only called when the method returned
+    if matches!(setter, Setter::CFlags | Setter::CRcode | Setter::COpcode) {
+        let r0 = catch(|| match setter {
+            Setter::CFlags => pp.set_flags(arg),
+            Setter::CRcode => pp.set_rcode(arg as u8),
+            _ => pp.set_opcode(arg as u8),
+        });
+        if let Err(pm) = r0 {
+            fail!(format!("C12 setter-panic {:?} {}", setter, panic_sig(&pm)), "(method behind the table entry) {} setter={:?} header word={:#06x} arg={:#x}", pm, setter, word, arg);
+        }
+        let p = pp.packet_mut();
+        p.copy_from_slice(base);
+        p[2] = (word >> 8) as u8;
+        p[3] = word as u8;
+    }
     let r = catch(|| match setter {
         Setter::Flags => pp.set_flags(arg),
         Setter::Rcode => pp.set_rcode(arg as u8),
